@@ -19,7 +19,11 @@ PROP = dict(
              "placeholders (${k}, ${k:default}, placeholders expanding to operators and to quoted literals, text around the expression, two expressions in one tag, "
              "deliberately broken expressions), optional validate on the result, bound to int/int64/float64/string/bool/any/pointer/slice fields; "
              "(b) value x constraint pairs: ints, strings, floats, bools, slices with eq ne min max gt lt gte lte len oneof required number, structs with "
-             "validate field tags (also behind pointers), bound by ${k} or by prefix, present / absent+optional; the harness substitutes placeholders from the tag's "
+             "validate field tags (also behind pointers), bound by ${k} or by prefix, present / absent+optional; "
+             "one validation case in six is a struct (or pointer to struct) with a NESTED section: a struct or pointer-to-struct member carrying `required` (or no "
+             "constraint) with inner members of their own, the section absent / null / all-zero / filled, the other members valid in half of the cases, bound by ${k} or by prefix; "
+             "one expression case in six takes its configured operands through placeholders that declare a default (${k:d}, d different from the configured value, "
+             "configured values leaning to 0 and false): the configured value is what the expression must see; the harness substitutes placeholders from the tag's "
              "syntax tree, evaluates with expr.Compile/Run and validator.Var/Struct directly; 30% of the holders also carry an optional wire dependency (both property groups exist) and are started 4 times, every start must agree (oracle start-unstable); non-trivial = all; distinct = distinct scenario lines",
         trusted_base=COMMON_TB + ["the go/ast facts translator for Facts.builtinProcessors / orderConsts",
                                   "expr-lang/expr and go-playground/validator themselves (opaque; called directly by the oracle)",
